@@ -160,6 +160,16 @@ class BMSMap(Map[BMSNoteList, BMSHitList, BMSHoldList, BMSBpmList], BMSMapMeta):
             )
 
     def _read_file_header(self, data: dict):
+        # Command names are case-insensitive. The 2 character ids of #BPMxx and
+        # #WAVxx are kept as written, they are matched against the note data.
+        data = {
+            (
+                k[:3].upper() + k[3:]
+                if len(k) == 5 and k[:3].upper() in (b"BPM", b"WAV")
+                else k.upper()
+            ): v
+            for k, v in data.items()
+        }
         self.artist = data.get(b"ARTIST", "")
         self.title = data.get(b"TITLE", "")
         self.version = data.get(b"PLAYLEVEL", "")
